@@ -5,22 +5,26 @@
   fill.  Stage lemmas shared with C01 are in UBidi/Lemmas/C01Base.lean.
 -/
 import UBidi.Lemmas.C01Base
+import UBidi.Lemmas.C02Sim
 namespace UBidi.Props.C08.Base
 open UBidi UBidi.BidiClass
 open UBidi.Props.C01.Base
+open UBidi.Lemmas.C02 (widthAt widthAt_of_charAt iiStepW iiStep_eq)
 
 /-! ### `compute_initial_info`: lengths -/
 
-theorem iiStep_classes_length (ds : DataSource) (enc : Enc) (split : Bool) (dflt : Option Nat)
+theorem iiStep_classes_length (ds : DataSource) (T : Text) (split : Bool) (dflt : Option Nat)
     (st : IIState) (s : Seg) :
-    (iiStep ds enc split dflt st s).classes.length = st.classes.length + enc.charLen s.cp := by
-  unfold iiStep
+    (iiStep ds T split dflt st s).classes.length = st.classes.length + T.enc.charLen s.cp := by
+  rw [iiStep_eq]
+  unfold iiStepW
   grind [setRange_length, List.length_append, List.length_replicate]
 
-theorem iiStep_paras_flags (ds : DataSource) (enc : Enc) (split : Bool) (dflt : Option Nat)
+theorem iiStep_paras_flags (ds : DataSource) (T : Text) (split : Bool) (dflt : Option Nat)
     (st : IIState) (s : Seg) (h : st.paras.length = st.flags.length) :
-    (iiStep ds enc split dflt st s).paras.length = (iiStep ds enc split dflt st s).flags.length := by
-  unfold iiStep
+    (iiStep ds T split dflt st s).paras.length = (iiStep ds T split dflt st s).flags.length := by
+  rw [iiStep_eq]
+  unfold iiStepW
   grind [List.length_append]
 
 theorem foldl_length_segs {σ α} (f : σ → Seg → σ) (proj : σ → List α) (g : Seg → Nat)
@@ -46,14 +50,14 @@ theorem initial_classes_length (ds : DataSource) (t : Text) (hwf : t.WF) (d : Op
     (computeInitialInfo ds t d split).classes.length = t.len := by
   unfold computeInitialInfo
   simp only []
-  exact foldl_length_segs (iiStep ds t.enc split d) (·.classes) (fun s => t.enc.charLen s.cp)
-    (iiStep_classes_length ds t.enc split d) t.segs 0 t.len hwf.tiles
+  exact foldl_length_segs (iiStep ds t split d) (·.classes) (fun s => t.enc.charLen s.cp)
+    (iiStep_classes_length ds t split d) t.segs 0 t.len hwf.tiles
     (fun s hs => (hwf.lens s hs).symm) _ rfl
 
 theorem initial_paras_flags (ds : DataSource) (t : Text) (d : Option Nat) (split : Bool) :
     (computeInitialInfo ds t d split).paras.length = (computeInitialInfo ds t d split).flags.length := by
-  have := foldl_inv (fun st : IIState => st.paras.length = st.flags.length) (iiStep ds t.enc split d)
-    (fun st s h => iiStep_paras_flags ds t.enc split d st s h) t.segs { paraLevel := d } rfl
+  have := foldl_inv (fun st : IIState => st.paras.length = st.flags.length) (iiStep ds t split d)
+    (fun st s h => iiStep_paras_flags ds t split d st s h) t.segs { paraLevel := d } rfl
   unfold computeInitialInfo
   simp only []
   split <;> simp_all
@@ -128,28 +132,30 @@ theorem setRange_getElem? {α} (xs : List α) (i n : Nat) (v : α) (k : Nat) :
     grind
 
 /-- what one step of `compute_initial_info` does to the class vector and the isolate stack -/
-theorem iiStep_shape (ds : DataSource) (enc : Enc) (split : Bool) (dflt : Option Nat)
+theorem iiStep_shape (ds : DataSource) (T : Text) (split : Bool) (dflt : Option Nat)
     (st : IIState) (s : Seg) :
-    let r := iiStep ds enc split dflt st s
-    let cl1 := st.classes ++ List.replicate (enc.charLen s.cp) (ds.cls s.cp)
-    (r.classes = cl1 ∨ ∃ start v, start ∈ st.stack ∧ r.classes = setRange cl1 start (enc.charLen Gen.fcFSI) v) ∧
+    let r := iiStep ds T split dflt st s
+    let cl1 := st.classes ++ List.replicate (T.enc.charLen s.cp) (ds.cls s.cp)
+    (r.classes = cl1 ∨ ∃ start v, start ∈ st.stack ∧ r.classes = setRange cl1 start (widthAt T start) v) ∧
     (r.stack = st.stack ∨ r.stack = [] ∨ r.stack = st.stack.tail ∨
       (r.stack = s.start :: st.stack ∧ (ds.cls s.cp).isIsolateInitiator = true)) := by
-  unfold iiStep
+  rw [iiStep_eq]
+  unfold iiStepW
   grind [isIsolateInitiator]
 
 /-- invariant of the `compute_initial_info` loop: `done` are the characters read so far,
-    `pos` the number of code units read, `n` the unit length of FSI -/
-structure IInv (n : Nat) (done : List Seg) (pos : Nat) (classes : List BidiClass) (stack : List Nat) : Prop where
+    `pos` the number of code units read, `w` the X5c width function (`widthAt`): at every pending
+    initiator it is the length of the character that sits there -/
+structure IInv (w : Nat → Nat) (done : List Seg) (pos : Nat) (classes : List BidiClass) (stack : List Nat) : Prop where
   len : classes.length = pos
   inb : ∀ s ∈ done, s.start + s.len ≤ pos
   disj : ∀ s1 ∈ done, ∀ s2 ∈ done, s1 = s2 ∨ s1.start + s1.len ≤ s2.start ∨ s2.start + s2.len ≤ s1.start
   uni : ∀ s ∈ done, ∀ j, j < s.len → classes[s.start + j]? = classes[s.start]?
-  stk : ∀ start ∈ stack, ∃ s ∈ done, s.start = start ∧ s.len = n
+  stk : ∀ start ∈ stack, ∃ s ∈ done, s.start = start ∧ s.len = w start
 
-theorem IInv.append {n done pos classes stack} (h : IInv n done pos classes stack) (s : Seg)
+theorem IInv.append {w done pos classes stack} (h : IInv w done pos classes stack) (s : Seg)
     (hs : s.start = pos) (c : BidiClass) :
-    IInv n (done ++ [s]) (pos + s.len) (classes ++ List.replicate s.len c) stack := by
+    IInv w (done ++ [s]) (pos + s.len) (classes ++ List.replicate s.len c) stack := by
   constructor
   · simp [h.len]
   · intro s' hs'
@@ -176,37 +182,36 @@ theorem IInv.append {n done pos classes stack} (h : IInv n done pos classes stac
     obtain ⟨s', h1, h2⟩ := h.stk start hst
     exact ⟨s', List.mem_append_left _ h1, h2⟩
 
-theorem IInv.setRange {n done pos classes stack} (h : IInv n done pos classes stack)
+theorem IInv.setRange {w done pos classes stack} (h : IInv w done pos classes stack)
     (start : Nat) (hst : start ∈ stack) (v : BidiClass) :
-    IInv n done pos (setRange classes start n v) stack := by
+    IInv w done pos (setRange classes start (w start) v) stack := by
   obtain ⟨s', hs', hs1, hs2⟩ := h.stk start hst
   refine ⟨by rw [setRange_length]; exact h.len, h.inb, h.disj, ?_, h.stk⟩
   intro s hs j hj
   rw [setRange_getElem?, setRange_getElem?, h.uni s hs j hj]
   rcases h.disj s hs s' hs' with rfl | hd | hd
-  · have a : start ≤ s.start + j ∧ s.start + j < start + n := by omega
-    have b : start ≤ s.start ∧ s.start < start + n := by omega
+  · have a : start ≤ s.start + j ∧ s.start + j < start + w start := by omega
+    have b : start ≤ s.start ∧ s.start < start + w start := by omega
     simp only [a, b, and_self, if_true]
-  · have a : ¬ (start ≤ s.start + j ∧ s.start + j < start + n) := by omega
-    have b : ¬ (start ≤ s.start ∧ s.start < start + n) := by omega
+  · have a : ¬ (start ≤ s.start + j ∧ s.start + j < start + w start) := by omega
+    have b : ¬ (start ≤ s.start ∧ s.start < start + w start) := by omega
     simp only [a, b, if_false]
-  · have a : ¬ (start ≤ s.start + j ∧ s.start + j < start + n) := by omega
-    have b : ¬ (start ≤ s.start ∧ s.start < start + n) := by omega
+  · have a : ¬ (start ≤ s.start + j ∧ s.start + j < start + w start) := by omega
+    have b : ¬ (start ≤ s.start ∧ s.start < start + w start) := by omega
     simp only [a, b, if_false]
 
-theorem IInv.step {ds : DataSource} {enc : Enc} {n : Nat} (hn : n = enc.charLen Gen.fcFSI)
-    {done pos} {st : IIState} (h : IInv n done pos st.classes st.stack)
+theorem IInv.step {ds : DataSource} {T : Text}
+    {done pos} {st : IIState} (h : IInv (widthAt T) done pos st.classes st.stack)
     (split : Bool) (dflt : Option Nat) (s : Seg) (hs : s.start = pos)
-    (hl : s.len = enc.charLen s.cp)
-    (hiso : (ds.cls s.cp).isIsolateInitiator = true → s.len = n) :
-    IInv n (done ++ [s]) (pos + s.len) (iiStep ds enc split dflt st s).classes
-      (iiStep ds enc split dflt st s).stack := by
+    (hl : s.len = T.enc.charLen s.cp) (hat : T.charAt s.start = some s) :
+    IInv (widthAt T) (done ++ [s]) (pos + s.len) (iiStep ds T split dflt st s).classes
+      (iiStep ds T split dflt st s).stack := by
   have h1 := h.append s hs (ds.cls s.cp)
-  obtain ⟨hc, hk⟩ := iiStep_shape ds enc split dflt st s
+  obtain ⟨hc, hk⟩ := iiStep_shape ds T split dflt st s
   rw [← hl] at hc
   -- first the stack
-  have hstk : ∀ start ∈ (iiStep ds enc split dflt st s).stack,
-      ∃ s' ∈ done ++ [s], s'.start = start ∧ s'.len = n := by
+  have hstk : ∀ start ∈ (iiStep ds T split dflt st s).stack,
+      ∃ s' ∈ done ++ [s], s'.start = start ∧ s'.len = widthAt T start := by
     intro start hmem
     rcases hk with hk | hk | hk | ⟨hk, hi⟩
     · rw [hk] at hmem; exact h1.stk start hmem
@@ -214,44 +219,42 @@ theorem IInv.step {ds : DataSource} {enc : Enc} {n : Nat} (hn : n = enc.charLen 
     · rw [hk] at hmem; exact h1.stk start (List.mem_of_mem_tail hmem)
     · rw [hk] at hmem
       rcases List.mem_cons.1 hmem with rfl | hmem
-      · exact ⟨s, by simp, rfl, hiso hi⟩
+      · exact ⟨s, by simp, rfl, (widthAt_of_charAt hat).symm⟩
       · exact h1.stk start hmem
   rcases hc with hc | ⟨start, v, hmem, hc⟩
   · rw [hc]; exact ⟨h1.len, h1.inb, h1.disj, h1.uni, hstk⟩
-  · rw [hc, ← hn]
+  · rw [hc]
     have h2 := h1.setRange start hmem v
     exact ⟨h2.len, h2.inb, h2.disj, h2.uni, hstk⟩
 
-theorem IInv.fold {ds : DataSource} {enc : Enc} {n : Nat} (hn : n = enc.charLen Gen.fcFSI)
-    (split : Bool) (dflt : Option Nat) :
+theorem IInv.fold {ds : DataSource} {T : Text} (split : Bool) (dflt : Option Nat) :
     ∀ (segs : List Seg) (pos e : Nat) (done : List Seg) (st : IIState), SegsFrom pos segs e →
-      (∀ s ∈ segs, s.len = enc.charLen s.cp ∧ ((ds.cls s.cp).isIsolateInitiator = true → s.len = n)) →
-      IInv n done pos st.classes st.stack →
-      IInv n (done ++ segs) e (segs.foldl (iiStep ds enc split dflt) st).classes
-        (segs.foldl (iiStep ds enc split dflt) st).stack
+      (∀ s ∈ segs, s.len = T.enc.charLen s.cp ∧ T.charAt s.start = some s) →
+      IInv (widthAt T) done pos st.classes st.stack →
+      IInv (widthAt T) (done ++ segs) e (segs.foldl (iiStep ds T split dflt) st).classes
+        (segs.foldl (iiStep ds T split dflt) st).stack
   | [], pos, e, done, st, hs, _, h => by
     simp only [SegsFrom] at hs; subst hs; simpa using h
   | s :: ss, pos, e, done, st, hs, hl, h => by
     obtain ⟨h1, _, h3⟩ := hs
     have hs' := hl s (by simp)
-    have := IInv.fold hn split dflt ss (pos + s.len) e (done ++ [s]) (iiStep ds enc split dflt st s) h3
-      (fun x hx => hl x (by simp [hx])) (h.step hn split dflt s h1 hs'.1 hs'.2)
+    have := IInv.fold (ds := ds) split dflt ss (pos + s.len) e (done ++ [s]) (iiStep ds T split dflt st s) h3
+      (fun x hx => hl x (by simp [hx])) (h.step (ds := ds) split dflt s h1 hs'.1 hs'.2)
     simpa using this
 
-/-- the original classes are uniform within each character, provided the data source gives
-    class RLI/LRI/FSI only to characters as long as U+2068 (true of the Unicode data: the
-    only such characters are U+2066..U+2068) -/
-theorem initial_classes_uniform (ds : DataSource) (t : Text) (hwf : t.WF) (d : Option Nat) (split : Bool)
-    (hiso : ∀ s ∈ t.segs, (ds.cls s.cp).isIsolateInitiator = true →
-      t.enc.charLen s.cp = t.enc.charLen Gen.fcFSI) :
+/-- the original classes are uniform within each character, for every data source: rule X5c
+    rewrites exactly the code units of the character at the initiator's offset (since the repair
+    of finding D10; before, it rewrote `char_len(FSI)` units and a proviso on the data source was
+    needed) -/
+theorem initial_classes_uniform (ds : DataSource) (t : Text) (hwf : t.WF) (d : Option Nat) (split : Bool) :
     ∀ s ∈ t.segs, ∀ j, j < s.len →
       (computeInitialInfo ds t d split).classes[s.start + j]? =
         (computeInitialInfo ds t d split).classes[s.start]? := by
-  have h0 : IInv (t.enc.charLen Gen.fcFSI) [] 0 ({ paraLevel := d } : IIState).classes
+  have h0 : IInv (widthAt t) [] 0 ({ paraLevel := d } : IIState).classes
       ({ paraLevel := d } : IIState).stack :=
     ⟨rfl, by simp, by simp, by simp, by simp⟩
-  have := IInv.fold (ds := ds) rfl split d t.segs 0 t.len [] { paraLevel := d } hwf.tiles
-    (fun s hs => ⟨hwf.lens s hs, fun hi => by rw [hwf.lens s hs]; exact hiso s hs hi⟩) h0
+  have := IInv.fold (ds := ds) (T := t) split d t.segs 0 t.len [] { paraLevel := d } hwf.tiles
+    (fun s hs => ⟨hwf.lens s hs, UBidi.Lemmas.C02.charAt_start t hwf s hs⟩) h0
   intro s hs j hj
   exact this.uni s (by simpa using hs) j hj
 
